@@ -167,6 +167,9 @@ Shape(m, a) ==
 
 \* methods whose kept values are the (absolute) spectrum and obey Keep / Eckart-Young
 SVDType == {"auto", "svd", "svd:eig", "svd:rand", "eigh", "svds", "isvd", "rsvd", "eigsh"}
+\* iterative / randomised drivers: judged on values and optimality only where nothing of weight is cut
+\* (exact-rank regime), otherwise on the bond cap and the form only
+IterMethods == {"svds", "isvd", "rsvd", "eigsh"}
 \* methods documented to report info['error']
 ReportsError == {"auto", "svd", "svd:eig"}
 =============================================================================
